@@ -268,6 +268,10 @@ def run(case):
             resolved.append(desc)
             log.append((step, [str(x) for x in desc], real_exc, str(real_ret)))
             count('op.' + op)
+            # coverage grid: operation x length class x duplicates x outcome
+            count('grid.%s.len%s.%s.%s' % (op, '0' if n == 0 else '1' if n == 1 else '2+',
+                                           'dup' if len(set(M)) < len(M) else 'nodup',
+                                           'raised' if real_exc else 'ok'))
             if violation is None:
                 if real_exc != exp_exc:
                     if real_exc is None:
